@@ -1562,7 +1562,9 @@ def convert_from_interleaved(args):
             pass
         if ... in symbol_map:
             output.insert(0, ...)
-    eq += f"->{''.join(symbol_map[ix] for ix in output)}"
+    # an ellipsis in the output that no input carries stands for no dimensions
+    out = "".join("..." if ix is ... else symbol_map[ix] for ix in output)
+    eq += f"->{out}"
     return eq, arrays
 
 
